@@ -74,6 +74,7 @@ def run(chk):
                        '2.1 SDO, plain dictionary) all states reachable by <= 2 adds x 11 selectors (incl. string-prefix siblings created / created_by_ref, list indices, properties holding "" and false, '
                        'embedded-object properties) x 3 markings (2 marking refs + 1 language) x inherited/descendants flags: the laws of the statement against a set model; '
                        'multi-selector adds with partial overlap; commutativity; results are new versions with non-marking content unchanged.')
+    c = K.granular_set_contract(); chk.prove(c); chk.canary(c)          # "setting equals clearing then adding": the two calls, their arguments and their order (clear_markings itself is not under contract)
     c = K.granular_remove_contract(); chk.prove(c); chk.canary(c)          # granular remove: exactly the named pairs go; MarkingNotFoundError iff none of them is there
     c = K.granular_add_contract(); chk.prove(c); chk.canary(c)          # granular add: view(result) == view(object) | {(kind(m), m, s)}, against the contracts of its callees
     for name, claim in K.add_law_lemmas(): chk.lemma(name, claim)      # idempotent, order-independent, reported after adding: from that contract alone
